@@ -112,6 +112,7 @@ int main(int argc, char** argv)
     lat.axis("tuner", 2, jstr("local-search, surrogate"));
     lat.axis("samples", Ns.size(), jarr_num(Ns));
     lat.axis("gboost_variant", T ? 12 : 6, jstr("shrinkage {off,global,local} x subsample {off,subsample} (x wscale {gboost,tboost} in thorough); linear: only variant 0"));
+    lat.axis("object_history", 2, jstr("fresh model object | the same object was fitted before (default parameters, another dataset of the same schema with 16 samples, 2 folds)"));
     lat.describe(r);
 
     for_each_case(lat, r, "stats", [&](const uint64_t index, const std::vector<uint64_t>& d) {
@@ -146,7 +147,7 @@ int main(int argc, char** argv)
         {
             return jobj({{"model", jint(k.model)}, {"loss", jstr(lid)}, {"folds", jint(k.folds)}, {"tuner", jint(k.tuner)},
                          {"samples", jint(k.samples)}, {"shrinkage", jint(k.shrinkage)}, {"subsample", jint(k.subsample)},
-                         {"wscale", jint(k.wscale)}, {"what", jstr(what)}});
+                         {"wscale", jint(k.wscale)}, {"refit_of_used_object", jint(d[7])}, {"what", jstr(what)}});
         };
         if (index % 41 == 0)
         {
@@ -155,11 +156,32 @@ int main(int argc, char** argv)
         ml::result_t   result;
         rlinear_t      linear;
         gboost_model_t gboost = vt::make_gboost(is_lin ? 0 : k.model - 4);
+        const bool refit = d[7] != 0;
         try
         {
             if (is_lin)
             {
                 linear = linear_t::all().get(lin[static_cast<size_t>(k.model)]);
+            }
+            if (refit)
+            {
+                // an earlier use of the same model object: nothing of it may survive into the judged fit
+                const auto source0  = vt::make_model_source(16, k.target == 0 ? 0 : 2, true);
+                const auto dataset0 = vt::make_model_dataset(*source0, 1);
+                const auto samples0 = arange(0, 16);
+                const auto params0  = vt::make_fit_params(2, "local-search");
+                if (is_lin)
+                {
+                    (void)linear->fit(dataset0, samples0, *loss, params0);
+                }
+                else
+                {
+                    (void)gboost.fit(dataset0, samples0, *loss, params0);
+                }
+                purge_tmpdir();
+            }
+            if (is_lin)
+            {
                 linear->parameter("linear::batch") = 10;
                 result = linear->fit(dataset, samples, *loss, params);
             }
